@@ -418,6 +418,9 @@ class C17(Prop):
             w = self.live_witness()
             res['stats'].update(w['stats'])
             first = dict(first or {}, live_replay=w['sample'])
+            nrep = res['stats'].get('f17b_witnesses_reproduced_on_impl', 0) + w['stats'].get('f17b_live_default_window_differs_from_true_shares', 0)
+            if nrep:
+                res['known'] = {'F-17b': nrep}      # listed open finding: reported as KNOWN-FINDING while it still reproduces
         for c, n in cats.items():
             res['stats']['sp_' + c] = n
         res['stats']['sp_calls_compared'] = ncase
@@ -495,7 +498,7 @@ class C17(Prop):
             for k, v in (r.get('stats') or {}).items():
                 if k.startswith('sp_') or k.startswith('f17b') or k.startswith('witness') or k.startswith('live') or k.startswith('runs_'):
                     st[k] = st.get(k, 0) + v
-        note = ('F-17b (candidate finding, not in known_findings.json): outside the guard of state_probabilities_spec -- window end = inf, or a '
+        note = ('F-17b (open finding in known_findings.json): outside the guard of state_probabilities_spec -- window end = inf, or a '
                 'history timestamp equal to the window end -- the implementation agrees with the faithful Gallina model and NOT with the time '
                 'shares (theorems state_probabilities_refuted_*); the witnesses are replayed on the real code in every run')
         return {'state_probabilities': st, 'f17b_note': note}
